@@ -562,6 +562,10 @@ func cmdCheck(args []string) int {
 		complete  = true
 	)
 	for i, cfg := range cfgs {
+		if nviol > 0 && (cfg.Companion || cfg.Race) {
+			// the deciding configuration already failed: the companion pass adds nothing
+			continue
+		}
 		rs := runSpec{tier: *tier, seed: seed, groups: *groups, deadline: dl, shards: *shards, memMB: c.MemMB}
 		if cfg.Shards > 0 {
 			rs.shards = cfg.Shards
